@@ -490,6 +490,22 @@ class Gen:
             tail = {"double": ("ternary", test, ("unary", "-", ("float", "1.0")), ("ident", "r")), "bool": test,
                     "int": ("ternary", test, ("int", 1), ("int", 2)), "string": ("ternary", test, ("str", "n/a"), ("str", "ok"))}[t]
             return ("binding_block", [("decl", "let", [("r", None, ("binary", self.pick(["/", "-", "*"]), num, den))]), ("return", tail)]), t
+        if self.chance(0.05):
+            # a switch whose clauses accumulate into one variable and FALL THROUGH (few breaks), the default clause anywhere: the order of the bodies is the source order
+            t = self.pick(["int", "string"])
+            lit0 = ("int", 0) if t == "int" else ("str", "")
+            upd = (lambda k: ("binary", "+", ("binary", "*", ("ident", "acc"), ("int", 10)), ("int", k))) if t == "int" else (lambda k: ("binary", "+", ("ident", "acc"), ("str", str(k))))
+            n = self.rng.randrange(2, 5)
+            clauses = []
+            for k in range(1, n + 1):
+                body = [("expr", ("assign", ("ident", "acc"), upd(k)))]
+                if self.chance(0.3):
+                    body.append(("break", False))
+                clauses.append((("int", k), body))
+            dbody = [("expr", ("assign", ("ident", "acc"), upd(9)))] + ([("break", False)] if self.chance(0.25) else [])
+            default = (self.rng.randrange(0, n + 1), dbody) if self.chance(0.85) else None
+            sw = ("switch", ("binary", "&", self.prop("int", 1), ("int", 7)), clauses, default)
+            return ("binding_block", [("decl", "let", [("acc", None, lit0)]), sw, ("return", ("ident", "acc"))]), t
         if self.chance(0.04):
             return ("binding_expr", self.const_minmax(0)), "double"
         if self.chance(0.05):
